@@ -398,6 +398,218 @@ def single_step_args(lab, rng=None, k=6):
     return ops
 
 
+def frame_problem(obj, saved):
+    """None when the caller's object `obj` (DataFrame / Series / ndarray / list) still equals the copy `saved` taken before it was handed to a
+    constructor (values bit for bit, dtypes, column order, row labels); otherwise what differs."""
+    import numpy as np
+    import pandas as pd
+    if isinstance(obj, pd.DataFrame):
+        if list(obj.columns) != list(saved.columns):
+            return {"columns_before": [str(c) for c in saved.columns], "columns_now": [str(c) for c in obj.columns]}
+        if list(obj.index) != list(saved.index):
+            return {"row_labels_before": [str(c) for c in saved.index], "row_labels_now": [str(c) for c in obj.index]}
+        for c in saved.columns:
+            if str(obj[c].dtype) != str(saved[c].dtype) or not obj[c].equals(saved[c]):
+                return {"column": str(c), "before": [str(x) for x in saved[c]][:6], "now": [str(x) for x in obj[c]][:6],
+                        "dtype_before": str(saved[c].dtype), "dtype_now": str(obj[c].dtype)}
+        return None
+    if isinstance(obj, pd.Series):
+        if list(obj.index) != list(saved.index) or str(obj.dtype) != str(saved.dtype) or not obj.equals(saved):
+            return {"before": [str(x) for x in saved][:6], "now": [str(x) for x in obj][:6]}
+        return None
+    if isinstance(obj, np.ndarray):
+        if obj.dtype != saved.dtype or obj.shape != saved.shape or not np.array_equal(obj, saved):
+            return {"before": [str(x) for x in saved][:6], "now": [str(x) for x in obj][:6]}
+        return None
+    return None if obj == saved else {"before": str(saved)[:200], "now": str(obj)[:200]}
+
+
+def copy_of(obj):
+    import numpy as np
+    import pandas as pd
+    if isinstance(obj, (pd.DataFrame, pd.Series)):
+        return obj.copy(deep=True)
+    if isinstance(obj, np.ndarray):
+        return obj.copy()
+    return list(obj)
+
+
+ALIAS_LAYOUTS = ["internal", "internal-own-keys", "table-of-another-isotherm", "data()-of-another-isotherm", "permuted-with-branch", "no-branch-column",
+                 "arrays"]
+
+
+def alias_family(ck, pg, worlds, all_states):
+    """(d) Constructor arguments are the CALLER'S objects.  Several isotherms are built from ONE table (in the internal column layout — pressure,
+    loading, branch, the others sorted; with own column names; the `data_raw` / `data()` of another isotherm; permuted; without branch column) or from
+    one set of arrays / Series / lists; ONE of them goes through a seeded history of permanent conversions.  After every call: every caller's object
+    that is not documented as the converted isotherm's own table equals the copy taken before construction, every other isotherm is unchanged (labels,
+    every cell, branch, extra columns, row labels, metadata).  At the end a second one of them is converted DIRECTLY to the final representation: it
+    must equal the one taken through the history (`stored data = original data converted directly`, on the real code), and that conversion in turn
+    leaves the first and all others as they were; back to the start restores the numbers of the actor."""
+    import numpy as np
+    import pandas as pd
+    rng = ck.rng
+    n_cases = 0
+    for case_i in range(ck.n(120, 600)):
+        st = rng.choice(all_states)
+        lab = [st[0][0], st[0][1], st[1][0], st[1][1], st[2][0], st[2][1], st[3]]
+        w = rng.choice(worlds)
+        tval = w.temp if lab[6] == "K" else w.temp - 273.15
+        n = rng.randint(2, 8)
+        ps = sorted(rng.uniform(0.01, 0.99) for _ in range(n))
+        ls = [rng.uniform(0.05, 5.0) for _ in range(n)]
+        br = [0] * (n - n // 3) + [1] * (n // 3)
+        layout = ALIAS_LAYOUTS[case_i % len(ALIAS_LAYOUTS)] if case_i < 2 * len(ALIAS_LAYOUTS) else rng.choice(ALIAS_LAYOUTS)
+        meta = dict(material=w.mat.name, adsorbate=w.ads.name, temperature=tval, pressure_mode=lab[0], pressure_unit=lab[1], loading_basis=lab[2],
+                    loading_unit=lab[3], material_basis=lab[4], material_unit=lab[5], temperature_unit=lab[6], note="kept", n=3)
+        pk, lk = ("pressure", "loading") if layout != "internal-own-keys" else rng.choice([("p", "uptake"), ("P [x]", "N [y]"), ("a_pressure", "b_loading")])
+        extra = {"enthalpy": [5.0 + i for i in range(n)], "tag": [f"r{i}" for i in range(n)]}
+        extra = {c: extra[c] for c in rng.choice([["enthalpy", "tag"], ["enthalpy", "tag"], ["enthalpy"], ["tag"], []])}   # also tables with nothing but the two columns
+        held = {}            # the caller's objects: name -> (object, copy before any constructor saw it)
+        bystanders = {}      # name -> isotherm
+        own_table_of = None  # name of the isotherm whose table the caller's frame is BY DOCUMENTATION (data() / data_raw return the stored frame)
+        try:
+            if layout == "arrays":
+                kind = rng.choice(["ndarray", "Series", "list", "ndarray"])
+                mk = {"ndarray": lambda x: np.array(x, dtype=float), "Series": lambda x: pd.Series(list(x), dtype=float), "list": list}[kind]
+                pa, la = mk(ps), mk(ls)
+                ba = rng.choice([np.array(br), list(br), np.array(br, dtype=bool)])
+                held = {"pressure argument": (pa, copy_of(pa)), "loading argument": (la, copy_of(la)), "branch argument": (ba, copy_of(ba))}
+                build = lambda: pg.PointIsotherm(pressure=pa, loading=la, branch=ba, **meta)  # noqa
+            else:
+                if layout in ("table-of-another-isotherm", "data()-of-another-isotherm"):
+                    src = make_iso(pg, w, lab, ps, ls, tval, branch=br)
+                    frame = src.data_raw if layout == "table-of-another-isotherm" else src.data()
+                    bystanders["source"] = src
+                    own_table_of = "source"
+                else:
+                    cols = {pk: ps, lk: ls, "branch": br, **extra}
+                    order = [pk, lk, "branch"] + sorted(extra)
+                    if layout == "permuted-with-branch":
+                        order = rng.sample(order, len(order))
+                    elif layout == "no-branch-column":
+                        order = [c for c in (order if rng.random() < 0.5 else rng.sample(order, len(order))) if c != "branch"]
+                    frame = pd.DataFrame({c: cols[c] for c in order})
+                    if "branch" in order and rng.random() < 0.3:                    # row labels that are not 0..n-1 (marks are in the table: nothing is aligned)
+                        frame.index = rng.choice([list(range(10, 10 + n)), [f"pt{i}" for i in range(n)], list(range(n - 1, -1, -1))])
+                held = {"table": (frame, copy_of(frame))}
+                if "branch" in frame.columns:
+                    build = lambda: pg.PointIsotherm(isotherm_data=frame, pressure_key=pk, loading_key=lk, **meta)  # noqa
+                else:
+                    ba = rng.choice([np.array(br), list(br)])
+                    held["branch argument"] = (ba, copy_of(ba))
+                    build = lambda: pg.PointIsotherm(isotherm_data=frame, pressure_key=pk, loading_key=lk, branch=ba, **meta)  # noqa
+            first = build()
+            bystanders["first"] = first
+            # from_isotherm has no branch argument: only for tables that carry their marks
+            bystanders["second"] = build() if (layout == "arrays" or "branch" not in frame.columns or rng.random() < 0.6) else \
+                pg.PointIsotherm.from_isotherm(first, isotherm_data=frame, pressure_key=pk, loading_key=lk)
+            if rng.random() < 0.4:
+                bystanders["third"] = build()
+        except Exception as e:  # noqa  construction is C05's subject
+            ck.cov["distribution"]["alias:construction-refused"] = ck.cov["distribution"].get("alias:construction-refused", 0) + 1
+            continue
+        n_cases += 1
+        names = sorted(bystanders)
+        actor_name = rng.choice([x for x in names if x != "source"] + (["source"] if "source" in names and rng.random() < 0.5 else []))
+        actor = bystanders[actor_name]
+        start = {x: snapshot(bystanders[x]) for x in names}
+        desc = {"layout": layout, "columns": [str(c) for c in held["table"][1].columns] if "table" in held else None,
+                "row_labels": [str(c) for c in held["table"][1].index] if "table" in held else None,
+                "isotherms_built_from_the_same_arguments": names, "converted": actor_name, "adsorbate": w.ads.name, "material": w.mat.name,
+                "start_labels": [str(x) for x in lab], "pressure": ps, "loading": ls, "branch": br, "temperature": tval}
+
+        def others_problem(changed, sig, calls):
+            """the caller's objects and every isotherm not in `changed` are as they were"""
+            for hname, (obj, saved) in held.items():
+                if hname == "table" and own_table_of in changed:
+                    continue            # documented: data() / data_raw ARE the stored table of that isotherm
+                bad = frame_problem(obj, saved)
+                if bad:
+                    ck.fail_case({**sig, "clause": "a permanent conversion altered the caller's original data", "object": hname, "layout": layout},
+                                 {"difference": bad, "calls": calls, "case": desc})
+                    return True
+            for x in names:
+                if x in changed:
+                    continue
+                now = snapshot(bystanders[x])
+                if now != start[x]:
+                    f = [k for k in now if now[k] != start[x][k]]
+                    ck.fail_case({**sig, "clause": "a permanent conversion of one isotherm changed another isotherm built from the same arguments",
+                                  "changed": x, "differs": f, "layout": layout},
+                                 {"before": {k: start[x][k] for k in f}, "now": {k: now[k] for k in f}, "calls": calls, "case": desc})
+                    return True
+            return False
+
+        calls, stop = [], False
+        ops = []
+        for _ in range(rng.randint(1, 4)):
+            ops.append(None)
+        back = rng.random() < 0.3
+        for k in range(len(ops) + (2 if back else 0)):
+            cur = labels_of(actor)
+            if k < len(ops):
+                kind, a = gen_op(rng, cur, False)
+            elif k == len(ops):
+                kind, a = "A", (lab[0], lab[1], lab[2], lab[3], lab[4], lab[5])
+            else:
+                kind, a = "T", (lab[6],)
+            before = snapshot(actor)
+            try:
+                apply_op(actor, kind, a)
+                out = "ok"
+            except Exception as e:  # noqa
+                out = err_class(e)
+            after = snapshot(actor)
+            calls.append([kind, [str(x) for x in a], out])
+            sig = {"op": kind, "args": [str(x) for x in a], "from": [str(x) for x in cur]}
+            ck.count(("alias", layout, kind, tuple(cur), a), nontrivial=(out == "ok" and before != after), bucket="alias:" + layout + ":" + ("ok" if out == "ok" else "refused"))
+            if others_problem({actor_name}, sig, calls):
+                stop = True
+                break
+        if stop:
+            continue
+        final = snapshot(actor)
+        flab = final["labels"]
+        sig = {"op": "A", "args": [str(x) for x in flab[:6]], "from": [str(x) for x in lab]}
+        if back and flab == lab and calls[-1][2] == "ok" and calls[-2][2] == "ok":
+            s0 = start[actor_name]
+            if not all(near(x, y, rel=1e-9) for x, y in zip(final["p"] + final["l"], s0["p"] + s0["l"])):
+                ck.fail_case({**sig, "clause": "back to start restores the numbers", "layout": layout}, {"start": s0["p"] + s0["l"], "end": final["p"] + final["l"], "calls": calls, "case": desc})
+                continue
+        # the second object converted directly to the final representation
+        direct_name = rng.choice([x for x in names if x != actor_name and x != "source"] or [x for x in names if x != actor_name])
+        direct = bystanders[direct_name]
+        try:
+            direct.convert(pressure_mode=flab[0], pressure_unit=flab[1], loading_basis=flab[2], loading_unit=flab[3], material_basis=flab[4], material_unit=flab[5])
+            direct.convert_temperature(unit_to=flab[6])
+            dout = "ok"
+        except Exception as e:  # noqa
+            dout = err_class(e)
+        dsnap = snapshot(direct)
+        calls2 = calls + [["direct conversion of '" + direct_name + "'", [str(x) for x in flab], dout]]
+        ck.count(("alias-direct", layout, tuple(lab), tuple(flab)), nontrivial=(dout == "ok" and dsnap != start[direct_name]), bucket="alias:direct:" + ("ok" if dout == "ok" else "refused"))
+        if dout != "ok":
+            ck.fail_case({**sig, "clause": "conversion to a valid representation refused", "outcome": dout, "layout": layout}, {"calls": calls2, "case": desc})
+            continue
+        diff = [f for f in ("labels", "branch", "extra", "index", "props", "mat", "ads") if dsnap[f] != final[f]]
+        diff += [f for f in ("p", "l") if len(dsnap[f]) != len(final[f]) or not all(near(x, y, rel=1e-9) for x, y in zip(dsnap[f], final[f]))]
+        diff += [] if near(dsnap["t"], final["t"], rel=1e-12) else ["t"]
+        if diff:
+            ck.fail_case({**sig, "clause": "data = original converted directly", "differs": diff, "layout": layout},
+                         {"through_the_history": {x: final[x] for x in ("labels", "p", "l", "t")}, "converted_directly": {x: dsnap[x] for x in ("labels", "p", "l", "t")},
+                          "calls": calls2, "case": desc})
+            continue
+        if snapshot(actor) != final:
+            now = snapshot(actor)
+            f = [k for k in now if now[k] != final[k]]
+            ck.fail_case({**sig, "clause": "a permanent conversion of one isotherm changed another isotherm built from the same arguments", "changed": actor_name,
+                          "differs": f, "layout": layout}, {"before": {k: final[k] for k in f}, "now": {k: now[k] for k in f}, "calls": calls2, "case": desc})
+            continue
+        others_problem({actor_name, direct_name}, sig, calls2)
+    ck.cov["aliasing_cases"] = n_cases
+
+
 def run(ck):
     pg = import_pygaps()
     rng = ck.rng
@@ -724,6 +936,9 @@ def run(ck):
                     if n_dis <= 3:
                         ck.broken.append({"step": "correspondence Model/IsoState.lean", "what": {**sig, "implementation": [out, lab, after["p"][:2], after["l"][:2], "slots " + ("1" if has[0] else "0") + ("1" if has[1] else "0")], "model": r[:300]}})
                     break       # the model state has diverged for the rest of this history
+    t_al = time.time()
+    alias_family(ck, pg, worlds, all_states)
+    ck.cov["seconds_aliasing_family"] = round(time.time() - t_al, 1)
     ck.cov["seconds"] = {"implementation_and_queries": round(t_impl - t_start, 1), "lean_driver": round(t_drv - t_impl, 1), "oracles_and_comparison": round(time.time() - t_drv, 1)}
     ck.cov["single_step_cases"] = n_single
     ck.cov["histories"] = n_hist_end - n_single
@@ -736,6 +951,9 @@ def run(ck):
                       "arguments, valid-mostly and malformed streams, stub / N2 / property-less adsorbates, 1-12 rows with both branches and two extra columns; "
                       "(c) combined convert() calls with an impossible argument at the pressure, material or loading position (unknown / foreign-family basis, omitted / foreign / unknown unit, "
                       "property the adsorbate or material lacks) next to valid changes, repeats and absent arguments elsewhere, compared with the single calls on a fresh copy; "
+                      "(d) aliasing of constructor arguments: two or three isotherms from ONE table (internal column layout, own column names, data_raw / data() of another "
+                      "isotherm, permuted, without branch column, non-default row labels) or from one set of ndarray / Series / list arguments, one taken through a history: the caller's "
+                      "objects and the other isotherms unchanged after every call, a second one converted directly equals the first; "
                       "around every call loading_at / pressure_at / spreading_pressure_at at a measured point on a seeded branch; "
                       "non-trivial = accepted call that changed labels or data; distinct = distinct (call, start labels, arguments)")
     ck.assumptions += ["pandas column assignment semantics", "CoolProp values enter as the constants returned by the real accessors"]
